@@ -54,6 +54,18 @@ Theorem arguments_read_refines : forall opts, wf_opts opts -> forall c, Inv c ->
 Proof. exact read_refines. Qed.
 Print Assumptions arguments_read_refines.
 
+Example arguments_read_refines_ex :
+  wf_opts ex_tbl /\ Inv ex_cursor /\
+  exists c', read ex_tbl ex_cursor = Ok (c', Some (97, [])) /\
+             items_of ex_tbl ex_cursor = IOpt 97 :: items_of ex_tbl c' /\ length (items_of ex_tbl ex_cursor) = 19%nat.
+Proof.
+  split; [apply wf_optsb_sound; vm_compute; reflexivity|].
+  split.
+  - unfold Inv. split; [right; split; reflexivity|].
+    split; [apply wf_strb_sound | apply wf_argvb_sound]; vm_compute; reflexivity.
+  - eexists. split; [vm_compute; reflexivity|]. split; vm_compute; reflexivity.
+Qed.
+
 Theorem reachable_cursors_invariant : forall opts argv c,
   wf_opts opts -> wf_argv argv -> reachable opts argv c -> Inv c.
 Proof. exact reachable_inv. Qed.
@@ -75,11 +87,26 @@ Example arguments_never_read_outside_ex :
   exists c', read ex_tbl ex_cursor = Ok (c', Some (97, [])).
 Proof. eexists. vm_compute. reflexivity. Qed.
 
+(* the backward accesses of read() - argument.attach(arg - 2, ..), attach(argName - 2, ..), attach(arg - 1, 1) -
+   carry their own bounds obligation in the model: it answers Oob when the pointer would leave the
+   string at its start or the bytes handed out would pass the terminator *)
+Example backward_attach_is_checked_ex :
+  attach_back {| c_rest := []; c_idx := 2; c_arg := B "x"; c_pos := 1; c_inOpt := false; c_skipOpt := false |} 2 3 (B "--x") = Oob /\
+  attach_back {| c_rest := []; c_idx := 2; c_arg := B "x"; c_pos := 2; c_inOpt := false; c_skipOpt := false |} 2 4 (B "--x") = Oob /\
+  attach_back {| c_rest := []; c_idx := 2; c_arg := B "x"; c_pos := 2; c_inOpt := false; c_skipOpt := false |} 2 3 (B "--x") = Ok (B "--x") /\
+  read_all ex_tbl [B "--nope=1"; B "--bee"; B "-"] = Ok [(63, B "--nope=1"); (98, B "-")] /\
+  read_all ex_tbl [B "-"; B "--bee"] = Ok [(0, B "-"); (58, B "--bee")].
+Proof. repeat split; vm_compute; reflexivity. Qed.
+
 Theorem arguments_read_consumes : forall opts argv c c' ob,
   wf_opts opts -> wf_argv argv -> reachable opts argv c ->
   read opts c = Ok (c', Some ob) -> (cweight c' < cweight c)%nat.
 Proof. exact read_decreases. Qed.
 Print Assumptions arguments_read_consumes.
+
+Example arguments_read_consumes_ex :
+  exists c', read ex_tbl ex_cursor = Ok (c', Some (97, [])) /\ cweight ex_cursor = 92%nat /\ cweight c' = 91%nat.
+Proof. eexists. repeat split; vm_compute; reflexivity. Qed.
 
 Theorem arguments_false_is_final : forall opts argv c c',
   wf_opts opts -> wf_argv argv -> reachable opts argv c ->
@@ -97,6 +124,11 @@ Theorem arguments_loop_terminates : forall opts argv,
 Proof. exact read_all_total. Qed.
 Print Assumptions arguments_loop_terminates.
 
+Example arguments_loop_terminates_ex :
+  weight ex_vec = 95%nat /\ run 21 ex_tbl (init_cursor ex_vec) = Ok ex_expected /\
+  run 20 ex_tbl (init_cursor ex_vec) = Fuel /\ read_all ex_tbl [] = Ok [].
+Proof. repeat split; vm_compute; reflexivity. Qed.
+
 Theorem arguments_item_count_bounded : forall opts argv,
   wf_opts opts -> wf_argv argv -> (length (getopt_ref opts argv) <= weight argv)%nat.
 Proof. exact getopt_ref_length. Qed.
@@ -110,6 +142,11 @@ Theorem getopt_terminator : forall opts post,
   getopt_ref opts ([ch_dash; ch_dash] :: post) = map (fun s => (0, s)) post.
 Proof. exact getopt_ref_terminator. Qed.
 Print Assumptions getopt_terminator.
+
+Example getopt_terminator_ex :
+  getopt_ref ex_tbl [B "--"; B "-a"; B "--bee"; B "--"; B ""] = [(0, B "-a"); (0, B "--bee"); (0, B "--"); (0, [])] /\
+  read_all ex_tbl [B "--"; B "-a"; B "--bee"; B "--"; B ""] = Ok [(0, B "-a"); (0, B "--bee"); (0, B "--"); (0, [])].
+Proof. split; vm_compute; reflexivity. Qed.
 
 (* missing arguments and a lone '-' *)
 Example getopt_incomplete_ex :
@@ -145,6 +182,12 @@ Theorem reference_roundtrip : forall ws, Forall quotable ws -> split_ref (join_w
 Proof. exact split_ref_join. Qed.
 Print Assumptions reference_roundtrip.
 
+Example reference_roundtrip_ex :
+  Forall quotable ex_words /\ split_ref (join_words ex_words) = ex_words /\ length (join_words ex_words) = 47%nat.
+Proof.
+  split; [repeat constructor; vm_compute; discriminate|]. split; vm_compute; reflexivity.
+Qed.
+
 Theorem splitter_roundtrip : forall ws,
   Forall nz ws -> Forall quotable ws -> split_model (join_words ws) = Ok ws.
 Proof. exact split_model_roundtrip. Qed.
@@ -173,6 +216,13 @@ Theorem launch_argv0_exact : forall exe argv env,
   launch_argv exe (S (length argv)) (map Some argv ++ [None]) env = Ok (launch_ref_argv0 exe argv env).
 Proof. exact launch_argv0_correct. Qed.
 Print Assumptions launch_argv0_exact.
+
+(* a vector that carries its own terminating null pointer is handed to exec as it is, argv[0] included *)
+Example launch_argv0_exact_ex :
+  launch_argv (B "/bin/p") 3 (map Some [B "zero"; B "a b"] ++ [None]) ex_env =
+  Ok {| x_program := B "/bin/p"; x_args := [B "zero"; B "a b"]; x_env := Some [B "HOME=/h"; B "K="] |} /\
+  launch_argv (B "/bin/p") 1 [None] [] = Ok {| x_program := B "/bin/p"; x_args := []; x_env := None |}.
+Proof. split; vm_compute; reflexivity. Qed.
 
 Theorem launch_list_exact : forall exe args env,
   launch_list exe args env = Ok (launch_ref_list exe args env).
